@@ -13,8 +13,8 @@ CHECKS = {
         technique="runtime monitoring: reference-oracle monitor over boundary-weighted generated inputs",
         text=("Every clause of the statement (proper rigid transform, both round trips, hat/vee, inverse, adjoint "
               "homomorphism/inverse/conjugation) is evaluated by an independent scipy-based oracle on each of "
-              "4e4 (quick) / 3e6 (thorough) generated cases concentrated on the 1e-6 cut-off, the half turn and "
-              "2*pi, coordinate and generic axes, |p| up to 1e3.  Sampling, not proof: a violation confined to "
+              "8e4 (quick) / 3e6 (thorough) generated cases concentrated on the 1e-6 cut-off, the half turn (down to pi-3e-10, also about axes with "
+              "one tiny component) and 2*pi, coordinate and generic axes, |p| up to 1e3.  Sampling, not proof: a violation confined to "
               "inputs outside the generated classes is not seen."),
         ref="DESIGN.md section 5 / C01"),
     "C02": dict(
@@ -25,7 +25,7 @@ CHECKS = {
               "returns is a violation, an IK success is re-validated with the reference FK/log against the requested "
               "tolerances, and common convergence must reach the same solution (chaotic starts and inputs where the "
               "reference itself is discontinuous are detected by perturbation and only counted).  3e4 (quick) / "
-              "1.6e5 (thorough) calls."),
+              "1.1e6 (thorough) calls."),
         ref="DESIGN.md section 5 / C02", category="exploration"),
     "C03": dict(
         technique="runtime monitoring: class invariant + pose model after every step of enumerated and random histories; thorough also runs the repository's own test-suite under the same invariant as a pre/post contract",
@@ -39,8 +39,8 @@ CHECKS = {
     "C04": dict(
         technique="runtime monitoring: reference-oracle monitor over generated pose triples and constructor forms",
         text=("Group-law clauses (@ = matrix product, inv, associativity, tm @ ndarray, localToGlobal/globalToLocal "
-              "and their mutual inverse) and all 13 constructor forms of one pose are compared with scipy-based oracle "
-              "matrices on 2e4 (quick) / 1e6 (thorough) triples with |p| up to 1e3 and angles up to pi-1e-3, boundary "
+              "and their mutual inverse) and all constructor forms and spellings of one pose (lists, arrays, columns, Fortran order, np.float64 / int entries, rpy flag, nested pair) "
+              "are compared with scipy-based oracle matrices, and every result is read through its matrix AND its six-vector, on 4e4 (quick) / 1e6 (thorough) triples with |p| up to 1e3 and angles up to pi-1e-3, boundary "
               "classes included."),
         ref="DESIGN.md section 5 / C04"),
     "C05": dict(
@@ -49,21 +49,24 @@ CHECKS = {
               "identity then moved) are driven through generated histories of length <= 10 over {FK, IK both paths, "
               "move, move(stationary), setArbitraryHome, restoreOriginalEE, randomPos} next to an independent "
               "product-of-exponentials model; after every step the return value, getEEPos, getBasePos, "
-              "getJointTransforms, jacobian() and jacobianBody() are compared with the model (1e-7 poses).  640 "
-              "(quick) / 4e4 (thorough) histories."),
+              "getJointTransforms, jacobian() and jacobianBody() are compared with the model (1e-7 poses, both representations of every published pose), "
+              "and eight default-argument queries must leave the reported pose alone.  1.9e3 (quick) / 1.6e5 (thorough) histories."
+              "  After a failed solve the model adopts whichever coherent state explains the reported pose (the property does not fix the failure policy)."),
         ref="DESIGN.md section 5 / C05"),
     "C06": dict(
         technique="runtime monitoring: finite-difference (Richardson) oracle on the arm's own FK, virtual-work oracle for statics",
-        text=("For 400 (quick) / 2e4 (thorough) generated (arm, base, optional move/tool change, configuration) cases the "
+        text=("For 960 (quick) / 1.9e5 (thorough) generated (arm, base, 0-3 moves/tool changes/restores in any order, configuration incl. joints within 5e-4 of a limit) cases the "
               "derivative of the arm's own FK / FKLink is taken by Richardson-extrapolated central differences and compared "
               "(1e-6 relative to the Jacobian norm) with jacobian, jacobianBody (also against Ad(inv T) J_space), "
-              "jacobianLink for every link index, jacobianEETrans, numericalJacobian and velocityAtEndEffector; statics is "
+              "jacobianLink for every link index, jacobianEETrans, numericalJacobian, velocityAtEndEffector, velocityAtJoints and both inverse Jacobians, also with "
+              "an explicit joint vector while the arm is parked elsewhere; statics (space and body frame) is "
               "checked by power balance, transpose, inverse (rank 6, sigma_min >= 0.05) and, for link masses, by "
               "differentiating the published link centre-of-mass positions."),
         ref="DESIGN.md section 5 / C06"),
     "C07": dict(
         technique="runtime monitoring: postcondition oracle on every solver return + state coherence, fault goals (unreachable)",
-        text=("1.6e3 (quick) / 1e5 (thorough) solves over arms x goals (reachable, limit boundary, beyond 1.5x a reach bound) x "
+        text=("9.6e3 (quick) / 6.4e5 (thorough) solves, in sessions of 1-4 on the same arm (incl. solves for the pose the arm already holds, entered with the state "
+              "outside the limits, and IKFree goals the held joints make just unreachable), over arms x goals (reachable, limit boundary, beyond 1.5x a reach bound) x "
               "starts x restarts on/off x 12 tolerance pairs with pos != rot x {IK, constrainedIK, IK free, IKFree}.  On "
               "success the oracle's own PoE forward kinematics of the returned vector must meet the configured orientation and "
               "position tolerances, respect the limits (limit path) and equal the published state; unreachable goals must fail; "
@@ -72,31 +75,32 @@ CHECKS = {
         ref="DESIGN.md section 5 / C07"),
     "C08": dict(
         technique="runtime monitoring: physical-identity oracles + cross-implementation agreement on generated chains/states",
-        text=("288 (quick) / 2e4 (thorough) generated (chain, state) cases: mass matrix SPD and equal to sum J_i^T G_i J_i with the "
+        text=("640 (quick) / 8e4 (thorough) generated (chain, state) cases: mass matrix SPD and equal to sum J_i^T G_i J_i with the "
               "oracle's own link Jacobians, FD(ID)=id, torque decomposition, tip term = J_b^T F, qd.c = 1/2 qd^T Mdot qd "
               "(Richardson), gravity torque = gradient of the potential (physical inertias), energy conservation on integrated "
-              "torque-free trajectories; all seven Arm-level dynamics methods compared with the mr functions on arms configured "
-              "through the public setters (6R test arm and random chains)."),
+              "torque-free trajectories; all Arm-level dynamics methods (tip wrench as array, as Wrench object and defaulted; the arm's own integrator) compared with the "
+              "mr functions on arms configured through the public setters in four call patterns and re-configured up to twice (6R test arm and random chains)."),
         ref="DESIGN.md section 5 / C08"),
     "C09": dict(
         technique="runtime monitoring: geometric oracle (plate-fixed joint coordinates) + round-trip monitor over generated platforms/poses",
-        text=("640 (quick) / 6.4e3 (thorough) generated platforms (JSON, parametric and direct constructors, both handedness values, "
+        text=("640 (quick) / 6.4e4 (thorough) generated platforms (JSON, parametric and direct constructors, both handedness values, "
               "random bases; optionally moved and/or re-spun at neutral): published joints vs the parametric description, IK lengths "
               "vs joint distances on arbitrary plate-pose pairs, invariance under a common rigid motion, and for every in-workspace "
-              "pose accepted without corrective action the FK round trip with both solvers from the neutral pose (1e-3 h)."),
+              "pose accepted without corrective action - plus one rim pose tilted about x and y and one pose whose first Newton update sums to zero per platform - "
+              "the FK round trip with both solvers from the neutral pose (1e-3 h)."),
         ref="DESIGN.md section 5 / C09"),
     "C10": dict(
         technique="runtime monitoring: class invariants after every call of generated operation histories with out-of-workspace faults; thorough also runs the repository's own test-suite under an SP coherence contract",
         text=("320 (quick) / 6e3 (thorough) histories of up to 25 operations (IK in/out of workspace, FK in/out of stroke with both "
               "solvers and reversed, move, spinCustom, validate, Jacobian/force queries, randomPos) under all 16 validation-switch "
-              "subsets; after every call the published plates, joints, lengths and relative transform are checked for coherence "
+              "subsets, with tight joint-deflection limits and deliberate stands below the base; after every call the published plates, joints, lengths and relative transform are checked for coherence "
               "(1e-9), a returned 'valid' is re-evaluated independently against every enabled constraint, pure queries must leave "
               "the plates bit-identical and any exception (RecursionError included) is a violation.  The corrective paths reached are "
               "histogrammed in the evidence."),
         ref="DESIGN.md section 5 / C10"),
     "C11": dict(
         technique="runtime monitoring: finite-difference (Richardson) oracle on the platform's own IK + static-equilibrium identities",
-        text=("400 (quick) / 2e4 (thorough) generated (geometry, base, optional move/spin, in-workspace pose with cond <= 1e4, twist, "
+        text=("400 (quick) / 1.9e5 (thorough) generated (geometry, base up to 200 m from the origin, optional move/spin, in-workspace pose with cond <= 1e4 - all three decades required -, twist, "
               "wrench, masses, gravity) cases: inverseJacobian . V against the Richardson derivative of the IK leg lengths along "
               "exp([V]t).top (1e-6), and Jinv^T tau = W for staticForces, staticForcesInv, sumActuatorWrenches = -W, the body-frame "
               "pair, and carryMassCalc with the plate and shaft weights at their centres of gravity (1e-8)."),
@@ -105,20 +109,20 @@ CHECKS = {
         technique="runtime monitoring: reference-oracle monitor (own adjoint) over generated frames/operands",
         text=("Frame-change group action, recorded frame, pairing invariance, p x f moment and zero moment at the "
               "application point, mixed-frame sums/differences and the vector-space laws are evaluated for Screw and "
-              "Wrench on 1.2e4 (quick) / 6.4e5 (thorough) generated cases covering every operand kind (Python/NumPy "
+              "Wrench on 2.4e4 (quick) / 6.4e5 (thorough) generated cases covering every operand kind (Python/NumPy "
               "scalars, 6-arrays, 6x1 arrays, objects) against an oracle built from the frames' published matrices."),
         ref="DESIGN.md section 5 / C12"),
     "C13": dict(
         technique="runtime monitoring: differential check of the loaded arm against an independent URDF-semantics parser on generated files",
-        text=("The five bundled files and 320 (quick) / 2e4 (thorough) generated single-chain URDFs (1..8 moving, 0..4 fixed joints "
-              "anywhere, each optional element omitted independently, generic axes, world link, inertials, shuffled order) are "
+        text=("The five bundled files and 880 (quick) / 1.6e5 (thorough) generated single-chain URDFs (1..8 moving, 0..4 fixed joints "
+              "anywhere, each optional element omitted independently, generic axes, limits with a zero bound / excluding zero / integer and exponent spellings, world link, inertials, shuffled order) are "
               "loaded with loadArmFromURDF; num_dof, joint order, names and written limits must match an independent parser "
               "exactly and FK must match the file's semantics to 1e-6 on 20 joint vectors inside the limits each."),
         ref="DESIGN.md section 5 / C13"),
     "C14": dict(
         technique="runtime monitoring: byte/identity/memory-extent fingerprints of operands around every catalogued operation, "
                   "np.shares_memory alias check, result-mutation probe, __defaults__ scanner; thorough also runs the repository's own test-suite under the operand-fingerprint contract",
-        text=("4.8e4 (quick) / 4.8e6 (thorough) applications of ~100 catalogued operations (tm/Screw/Wrench operators in both operand "
+        text=("9.8e4 (quick) / 5.9e6 (thorough) applications of ~140 catalogued operations (operands with exact zeros included) (tm/Screw/Wrench operators in both operand "
               "positions, inv, copies, get-accessors, frame/distance/midpoint/gap/path helpers, Arm and SP constructors followed by "
               "use, every function of the Modern Robotics port): operands are fingerprinted before and after, results of operators, "
               "copies and accessors must not share memory with operands and mutating them in every way must leave the operands "
@@ -130,13 +134,13 @@ CHECKS = {
         text=("RRTStar.obstruction is called on real PathNode/tm objects and compared with exact rational slab "
               "clipping.  Thorough enumerates the complete lattice of the property (117649 segments x 3375 boxes = "
               "3.97e8 calls, exhaustive:true only if all 49 shards finish); quick covers every box and every "
-              "segment at least once plus box sets and robust float cases.  Outside the lattice the claim is "
+              "segment at least once plus box sets, several planners alive at once (each must answer for its own boxes) and robust float cases.  Outside the lattice the claim is "
               "sampling only."),
         ref="DESIGN.md section 5 / C15"),
     "C16": dict(
         technique="runtime monitoring: recording callback/index wrappers + offline replay of the insertion log against a brute-force "
                   "nearest-neighbour oracle and the exact collision oracle",
-        text=("128 (quick) / 5e3 (thorough) planner runs over seeds, obstruction layouts (boxes, generated terrain), bounds, budgets "
+        text=("256 (quick) / 5e3 (thorough) planner runs (through findPathGeneral/generalGenerateTree and through the planner's own findPath()) over seeds, obstruction layouts (boxes, generated terrain), bounds, budgets "
               "1..400, both distance modes, neighbour limits 1..20 and caller-supplied callbacks.  Every generated sample, collision "
               "query, neighbour query and insertion is logged with a sequence number; offline the log is replayed: acceptance band "
               "w.r.t. the brute-force nearest node, examined set = k-NN, chosen parent = cheapest collision-free candidate, cost "
@@ -148,13 +152,14 @@ CHECKS = {
                   "(bounds-checked / compiled / interpreted) + dispatcher vs py_func on array-layout variants",
         text=("One seeded call list - all 47 @jit kernels on the C01/C02/C09 input classes and every public tm/Arm/SP entry "
               "point that reaches a kernel, for every link/joint index - is executed in three processes (NUMBA_BOUNDSCHECK=1, "
-              "default JIT, NUMBA_DISABLE_JIT=1); any IndexError or any result difference above 1e-10 is a violation, fewer than "
+              "default JIT, NUMBA_DISABLE_JIT=1); any IndexError or any result difference above 1e-10 is a violation (iterative kernels: only calls whose own answer is "
+              "insensitive to a 1e-13 change of the start are compared), fewer than "
               "47 covered kernels is inconclusive.  In the JIT process each dispatcher is compared with its own py_func on "
               "C-ordered, Fortran-ordered, sliced and integer-typed arguments.  Covers the calls made, nothing else."),
         ref="DESIGN.md section 5 / C17"),
     "C18": dict(
         technique="runtime monitoring: one independent defining relation per helper, evaluated on generated poses",
-        text=("Each helper named in the statement is run on 7e3 (quick) / 4.8e5 (thorough) generated cases (frames "
+        text=("Each helper named in the statement is run on 1.4e4 (quick) / 4.8e5 (thorough) generated cases (frames "
               "and mirror planes off-origin and rotated, |p| <= 10, angles up to pi-1e-3 with boundary classes) and "
               "its defining relation is checked with an oracle that never calls the helper's own code path "
               "(reflection in local coordinates, geodesic midpoint, z-axis through target, plane residuals, metric "
